@@ -15,6 +15,9 @@ pub struct ApiLog {
     pub names: Vec<String>,
     pub res: Vec<String>,
     pub at: Vec<i64>,
+    /// 0 data call (new / write / flush / sync), 1 terminating call that returns a Result (finish / close /
+    /// into_inner / the caller's final BufWriter flush), 2 terminating call that cannot report (-> W)
+    pub term: Vec<i64>,
     /// Avro OCF: the random sync marker of this writer
     pub marker: Option<[u8; 16]>,
 }
@@ -31,12 +34,21 @@ impl Api {
     }
     /// one public API call; `None` when it returned an error or panicked
     pub fn call<T, E: std::fmt::Display>(&self, name: &str, f: impl FnOnce() -> Result<T, E>) -> Option<T> {
+        let term = if matches!(name, "new" | "write" | "flush" | "sync") { 0 } else { 1 };
+        self.call_as(name, term, f)
+    }
+    /// a terminating call whose signature has no way to report a failure (`into_inner(self) -> W`)
+    pub fn take<T>(&self, name: &str, f: impl FnOnce() -> T) -> Option<T> {
+        self.call_as(name, 2, || fine(f()))
+    }
+    fn call_as<T, E: std::fmt::Display>(&self, name: &str, term: i64, f: impl FnOnce() -> Result<T, E>) -> Option<T> {
         {
             // logged before the call so that a hang is attributed to it
             let mut l = self.log.lock().unwrap();
             l.names.push(name.to_string());
             l.res.push("hang".to_string());
             l.at.push(0);
+            l.term.push(term);
         }
         let r = vcore::guarded(f);
         let at = self.dev.lock().unwrap().calls as i64;
@@ -58,6 +70,18 @@ impl Api {
             }
         }
     }
+    /// retry a failed terminating call: `f` up to `times` times, until it succeeds or panics
+    pub fn retry(&self, name: &str, times: usize, mut f: impl FnMut() -> Result<(), String>) -> bool {
+        for _ in 0..times {
+            if self.call(name, &mut f).is_some() {
+                return true;
+            }
+            if self.panicked() {
+                return false;
+            }
+        }
+        false
+    }
     pub fn panicked(&self) -> bool {
         self.log.lock().unwrap().res.iter().any(|r| r == "panic")
     }
@@ -72,6 +96,9 @@ pub struct WCase {
     pub random_sync: bool,
     /// gets the full index budget in the quick tier
     pub primary: bool,
+    /// a retry script: only the sink calls of the terminating phase get faults (the data phase is covered
+    /// by the plain scripts)
+    pub term_only: bool,
     /// the sink interface has whole-buffer writes only (AsyncFileWriter): no short / interrupted / zero faults
     pub whole_writes: bool,
     /// which reader case (format name in rsess) reads this output back, and the rows written
@@ -81,7 +108,7 @@ pub struct WCase {
 
 fn case(fmt: &'static str, variant: &'static str, run: Run) -> WCase {
     let secondary = matches!(variant, "direct/into_inner" | "direct/finish+into_inner") && fmt.starts_with("ipc");
-    WCase { fmt, variant, random_sync: false, primary: !secondary, whole_writes: false, read_back: None, run }
+    WCase { fmt, variant, random_sync: false, primary: !secondary, term_only: variant.contains("retry"), whole_writes: false, read_back: None, run }
 }
 
 fn flat_rows(d: &Data) -> Vec<String> {
@@ -101,6 +128,10 @@ enum Fin {
     IntoInner,
     FinishIntoInner,
     Close,
+    /// finish; while it fails: finish again, twice
+    FinishRetry,
+    /// finish; if it fails: close (which finishes)
+    FinishThenClose,
 }
 
 macro_rules! ipc_script {
@@ -138,6 +169,14 @@ macro_rules! ipc_script {
                     }
                 }
             }
+            Fin::FinishRetry => {
+                a.retry("finish", 3, || w.finish().map_err(|e| e.to_string()));
+            }
+            Fin::FinishThenClose => {
+                if a.call("finish", || w.finish()).is_none() && !a.panicked() {
+                    a.call("close", || RecordBatchWriter::close(w));
+                }
+            }
         }
     }};
 }
@@ -147,6 +186,11 @@ fn no_after<T>(_: &Api, _: T) {}
 /// what a caller does with the BufWriter it gets back: `into_inner` flushes it
 fn unwrap_buf(a: &Api, bw: BufWriter<FaultSink>) {
     a.call("buf_into_inner", || bw.into_inner().map(|_| ()).map_err(|e| e.error().to_string()));
+}
+
+/// the same with `flush` (which can be retried) in front
+fn flush_retry_buf(a: &Api, mut bw: BufWriter<FaultSink>) {
+    a.retry("buf_flush", 3, || bw.flush().map_err(|e| e.to_string()));
 }
 
 fn ipc_cases(d: &Data, out: &mut Vec<WCase>) {
@@ -159,6 +203,20 @@ fn ipc_cases(d: &Data, out: &mut Vec<WCase>) {
         let dd = d.clone();
         out.push(case("ipc_stream", variant, Box::new(move |s, a| ipc_script!(StreamWriter, StreamWriter::try_new(s.clone(), &dd.schema), &dd, a, flush_each, fin, no_after))));
     }
+    for (variant, fin) in [("direct/finish-retry", Fin::FinishRetry), ("direct/finish-retry-close", Fin::FinishThenClose)] {
+        let dd = d.clone();
+        out.push(case("ipc_file", variant, Box::new(move |s, a| ipc_script!(FileWriter, FileWriter::try_new(s.clone(), &dd.schema), &dd, a, false, fin, no_after))));
+        let dd = d.clone();
+        out.push(case("ipc_stream", variant, Box::new(move |s, a| ipc_script!(StreamWriter, StreamWriter::try_new(s.clone(), &dd.schema), &dd, a, false, fin, no_after))));
+    }
+    let dd = d.clone();
+    out.push(case("ipc_file", "buf64/finish-retry", Box::new(move |s, a| ipc_script!(FileWriter, FileWriter::try_new(BufWriter::with_capacity(64, s.clone()), &dd.schema), &dd, a, false, Fin::FinishRetry, no_after))));
+    let dd = d.clone();
+    out.push(case("ipc_stream", "buf64/finish-retry", Box::new(move |s, a| ipc_script!(StreamWriter, StreamWriter::try_new(BufWriter::with_capacity(64, s.clone()), &dd.schema), &dd, a, false, Fin::FinishRetry, no_after))));
+    let dd = d.clone();
+    out.push(case("ipc_file", "buffered/into_inner+flush-retry", Box::new(move |s, a| ipc_script!(FileWriter, FileWriter::try_new_buffered(s.clone(), &dd.schema), &dd, a, false, Fin::IntoInner, flush_retry_buf))));
+    let dd = d.clone();
+    out.push(case("ipc_stream", "buffered/into_inner+flush-retry", Box::new(move |s, a| ipc_script!(StreamWriter, StreamWriter::try_new_buffered(s.clone(), &dd.schema), &dd, a, false, Fin::IntoInner, flush_retry_buf))));
     let dd = d.clone();
     out.push(case("ipc_file", "buf64/finish", Box::new(move |s, a| ipc_script!(FileWriter, FileWriter::try_new(BufWriter::with_capacity(64, s.clone()), &dd.schema), &dd, a, false, Fin::Finish, no_after))));
     let dd = d.clone();
